@@ -514,6 +514,8 @@ class Verifier:
         goal = concretize(goal)
         if goal is True:
             return
+        if goal is False:
+            goal = z3.BoolVal(False)
         r, model = self.prove(goal)
         ob.time += time.time() - t0
         if r == 'unsat':
@@ -743,6 +745,7 @@ class Verifier:
             st = RunState()
             self.state = st
             self.factory.seq = 0
+            I.restore_globals()
             args = []
             kwargs = {}
             byname = {}
@@ -805,6 +808,24 @@ class Verifier:
             if I.check_sat() != z3.unsat:
                 covers[0] += 1
             I.call(spec.fn, [], byname)
+            if 'C02' in spec.props or 'C03' in spec.props:
+                # implicit clause of every C02/C03 contract: no global state is written, no generator is
+                # created, nothing depends on set iteration order / object identity / string hashes
+                input_rngs = {id(si_.value) for si_ in st.inputs.values() if isinstance(si_.value, Rng)}
+                input_rngs |= {id(v_) for si_ in st.inputs.values() if isinstance(si_.value, Instance)
+                               for v_ in si_.value.fields.values() if isinstance(v_, Rng)}
+                lazy_lib_rng = ('global_write: gym_gridverse.rng._gv_rng', 'new_rng')
+                bad = [f'{k_}: {w_}' for k_, w_ in st.effects if k_ in ('global_write', 'new_rng', 'identity')
+                       or (k_ == 'set_order' and not spec.opts.get('allow_set_order'))]
+                # creating the (still unused) library generator lazily is not a draw; drawing from it is
+                bad = [b_ for b_ in bad if not b_.startswith(lazy_lib_rng)]
+                bad += [f'draw on a generator that was not passed in: {w_.name}' for k_, w_ in st.effects
+                        if k_ == 'draw' and id(w_) not in input_rngs]
+                allowed = spec.opts.get('allow_effects', [])
+                bad = [b_ for b_ in bad if not any(b_.startswith(a_) for a_ in allowed)]
+                self.check_goal('implicit:no-global-state-no-hidden-randomness', not bad)
+                if bad:
+                    self.results[self.oid('implicit:no-global-state-no-hidden-randomness')].detail = '; '.join(bad)[:300]
             return None
 
         before = set(self.results)
